@@ -16,6 +16,7 @@ import (
 	"flag"
 	"fmt"
 	"os"
+	"runtime/debug"
 	"sort"
 	"strings"
 
@@ -330,7 +331,11 @@ func c16Replay(args []string) int {
 	fs := flag.NewFlagSet("c16-replay", flag.ExitOnError)
 	in := fs.String("in", "", "TLC output file with CASE16 lines")
 	traceOut := fs.String("trace", "", "write {kind:derive, S, B(real)} records for BuildersTrace")
+	maxStack := fs.Int("maxstack-mb", 0, "limit the goroutine stack (isolated runs on inputs the real code may not terminate on)")
 	_ = fs.Parse(args)
+	if *maxStack > 0 {
+		debug.SetMaxStack(*maxStack << 20)
+	}
 	f, err := os.Open(*in)
 	if err != nil {
 		fmt.Fprintln(os.Stderr, err)
